@@ -160,6 +160,7 @@ func (w *World) VerifyFunc(fi *FuncInfo, c *Contract, opts VerifyOpts) (res *Uni
 		res.Unit = key
 		ex.funcKey = key
 	}
+	ex.localOrd, _ = localOrdinals(fi.Pkg.TypesInfo, fi.Decl.Body)
 	// loops are numbered in source order (function literals included), independent of the paths explored
 	ex.loopOrdinals = map[ast.Node]int{}
 	ast.Inspect(body, func(n ast.Node) bool {
